@@ -127,6 +127,10 @@ def check(ix, rep):
     rep.floor('handlers checked for purity', n, 38)
     nown = ownrule.run(ix, rep)
     rep.floor('functions in the ownership analysis', nown, 250)
+    # the windows are counted in the period the user configured: the setting reaches the offline interpreter of every specification class
+    from sa.rules import units as _units
+    nr = _units.check_forwarding_reach(ix, rep)
+    rep.floor('interpreters a sampling setting has to reach', nr, 2)
     # 4. time-stamps never reach a handler; 5. output pairing
     pure.time_taint_offline(ix, rep, mon)
     pure.output_pairing(ix, rep, mon)
